@@ -1,71 +1,58 @@
 #!/usr/bin/env python3
-"""refactor_eval.py <name> <dir with patch.diff> [props...]
+"""refactor_eval.py [--all | <name> <dir with patch.diff>]...
 
 Applies a behaviour-preserving refactoring in a scratch worktree, checks build+tests, runs the claimed static checks
-against it and prints every NEW failing obligation (= false alarm). Stores confirmed refactorings under
-/verif/refactors/<name>/ (patch.diff, NOTES.md, result.json) so they can be re-run as a regression suite.
-"""
-import json, os, shutil, subprocess, sys, tempfile
+against it (one process, all properties) and prints every NEW failing obligation (= false alarm). Stores confirmed
+refactorings under /verif/refactors/<name>/ (patch.diff, NOTES.md, result.json) so they can be re-run as a regression
+suite (`--all`)."""
+import json, os, shutil, sys
+from concurrent.futures import ThreadPoolExecutor
+sys.path.insert(0, os.path.dirname(os.path.abspath(__file__)))
+from vlib import VERIF, Worktree, baseline, new_failing, run
 
-ENV = dict(os.environ, VERIF_NO_CONTROLS="1", GOFLAGS="-mod=mod", GOPROXY="off", GOSUMDB="off", GOTOOLCHAIN="local")
-ENV.pop("GOWORK", None)
-VERIF = "/verif"
 
-def run(cmd, cwd, timeout=900):
-    p = subprocess.run(cmd, cwd=cwd, env=ENV, shell=True, capture_output=True, text=True, timeout=timeout)
-    return p.returncode, (p.stdout + p.stderr)
+def one(name, src):
+    res = {"name": name, "ok_build_and_tests": False, "false_alarms": {}}
+    patch = os.path.abspath(os.path.join(src, "patch.diff"))
+    with Worktree(patch, "rfwt-") as wt:
+        if wt.apply_error:
+            return name, "PATCH DOES NOT APPLY " + wt.apply_error[:300]
+        c, o = run("go build ./... && go vet ./... && go test -vet=off -count=1 ./...", wt.dir)
+        if c != 0:
+            return name, "BUILD/TESTS FAIL " + o[-600:]
+        res["ok_build_and_tests"] = True
+        res["false_alarms"] = new_failing(wt.dir)
+    dst = os.path.join(VERIF, "refactors", name)
+    os.makedirs(dst, exist_ok=True)
+    if os.path.abspath(src) != os.path.abspath(dst):
+        shutil.copy(patch, dst)
+        if os.path.exists(os.path.join(src, "NOTES.md")):
+            shutil.copy(os.path.join(src, "NOTES.md"), dst)
+    json.dump(res, open(os.path.join(dst, "result.json"), "w"), indent=1)
+    if res["false_alarms"]:
+        lines = ["FALSE ALARMS:"]
+        for p, fa in res["false_alarms"].items():
+            for k, v in fa.items():
+                lines.append(f"    {p} {k} :: {v[:160]}")
+        return name, "\n".join(lines)
+    return name, "silent"
 
-def failing(repo, prop, sv):
-    run(f"{VERIF}/bin/pongocheck -repo {repo} -verif {sv} -property {prop}", VERIF)
-    try:
-        cov = json.load(open(os.path.join(sv, "evidence", prop + ".json")))["coverage"]
-        return {ob["rule"] + "|" + ob["construct"]: ob.get("reason", "") for ob in cov.get("failing", [])}
-    except Exception as e:
-        return {"ERROR|" + prop: str(e)}
 
 def main():
-    name, src = sys.argv[1], sys.argv[2]
-    props = sys.argv[3:] or [c["property_id"] for c in json.load(open(f"{VERIF}/MANIFEST.json"))["checks"]]
-    wt = tempfile.mkdtemp(prefix="rfwt-", dir="/tmp"); os.rmdir(wt)
-    sv = tempfile.mkdtemp(prefix="rfverif-", dir="/tmp")
-    shutil.copy(f"{VERIF}/known_findings.json", sv)
-    res = {"name": name, "ok_build_and_tests": False, "false_alarms": {}}
-    try:
-        c, o = run(f"git -C /repo worktree add -q --detach {wt} HEAD", "/")
-        assert c == 0, o
-        patch = os.path.abspath(os.path.join(src, "patch.diff"))
-        c, o = run(f"git apply {patch}", wt)
-        if c != 0:
-            print(name, "PATCH DOES NOT APPLY", o[:300]); return 1
-        c, o = run("go build ./... && go vet ./... && go test -vet=off -count=1 ./...", wt)
-        if c != 0:
-            print(name, "BUILD/TESTS FAIL", o[-600:]); return 1
-        res["ok_build_and_tests"] = True
-        for p in props:
-            base = failing("/repo", p, sv)
-            new = failing(wt, p, sv)
-            fa = {k: v for k, v in new.items() if k not in base}
-            if fa:
-                res["false_alarms"][p] = fa
-        if res["false_alarms"]:
-            print(name, "FALSE ALARMS:")
-            for p, fa in res["false_alarms"].items():
-                for k, v in fa.items():
-                    print("   ", p, k, "::", v[:160])
-        else:
-            print(name, "silent (no new failing obligation in", len(props), "checks)")
-        dst = os.path.join(VERIF, "refactors", name)
-        os.makedirs(dst, exist_ok=True)
-        if os.path.abspath(src) != os.path.abspath(dst):
-            shutil.copy(patch, dst)
-            if os.path.exists(os.path.join(src, "NOTES.md")):
-                shutil.copy(os.path.join(src, "NOTES.md"), dst)
-        json.dump(res, open(os.path.join(dst, "result.json"), "w"), indent=1)
-    finally:
-        run(f"git -C /repo worktree remove --force {wt}", "/")
-        shutil.rmtree(wt, ignore_errors=True); shutil.rmtree(sv, ignore_errors=True)
-        run("git -C /repo worktree prune", "/")
-    return 0
+    args = sys.argv[1:]
+    if args and args[0] == "--all":
+        jobs = [(n, os.path.join(VERIF, "refactors", n)) for n in sorted(os.listdir(os.path.join(VERIF, "refactors")))]
+    else:
+        jobs = [(args[i], args[i + 1]) for i in range(0, len(args) - 1, 2)]
+    baseline()
+    bad = 0
+    with ThreadPoolExecutor(max_workers=6) as ex:
+        for name, msg in ex.map(lambda j: one(*j), jobs):
+            print(name, msg)
+            bad += msg != "silent"
+    print(f"{len(jobs)} refactorings, {bad} not silent")
+    return 1 if bad else 0
+
 
 if __name__ == "__main__":
     sys.exit(main())
